@@ -49,6 +49,19 @@ class MyBytes(bytes):
     pass
 
 
+def norm_client(client):
+    """[0|1, n(, both)] / [2(, code)] (old corpus form) or [2, [code]|[], reason]"""
+    out = []
+    for e in client:
+        if e[0] in (0, 1):
+            out.append([e[0], e[1], e[2] if len(e) > 2 else 0])
+        elif len(e) == 3:
+            out.append([2, list(e[1]), e[2]])
+        else:
+            out.append([2, [e[1]] if len(e) > 1 else [], 0])
+    return out
+
+
 def cfg5(cfg):
     """(ver, cap, err[, handler kind, park])"""
     return tuple(cfg) + (0, 0)[len(cfg) - 3:] if len(cfg) < 5 else tuple(cfg)
@@ -139,15 +152,24 @@ class Session:
         self.gates = []
         self.pulls = []
         self.events = [{'type': 'websocket.connect'} if connect_ok else {'type': 'websocket.receive', 'text': '0'}]
-        for e in client:
+        for e in norm_client(client):
+            # every legal shape: the unused payload key absent, or present with None;
+            # disconnect with / without 'code', with a 'reason' (spec 2.3+)
             if e[0] == 0:
-                self.events.append({'type': 'websocket.receive', 'text': str(e[1])})
+                ev = {'type': 'websocket.receive', 'text': str(e[1])}
+                if e[2]:
+                    ev['bytes'] = None
             elif e[0] == 1:
-                self.events.append({'type': 'websocket.receive', 'bytes': str(e[1]).encode()})
-            elif len(e) > 1:
-                self.events.append({'type': 'websocket.disconnect', 'code': e[1]})
+                ev = {'type': 'websocket.receive', 'bytes': str(e[1]).encode()}
+                if e[2]:
+                    ev['text'] = None
             else:
-                self.events.append({'type': 'websocket.disconnect'})
+                ev = {'type': 'websocket.disconnect'}
+                if e[1]:
+                    ev['code'] = e[1][0]
+                if e[2] and VERSIONS[cfg5(cfg)[0]][1]:
+                    ev['reason'] = 'going away'
+            self.events.append(ev)
         self.fails = list(fails)
         self.trace = []
         self.handed = False
@@ -496,7 +518,7 @@ def run_real(falcon, case):
 # --------------------------------------------------------------------------- generators
 
 OPS_SMALL = [
-    [0, [0], 0], [1, [0], 0], [2, [0, 5, 0]], [3, [0, 6, 2]], [4, 1, 7], [5], [9], [10], [8, 2, 0], [8, 0, 403], [8, 3, 1001],
+    [0, [0], 0], [1, [0], 0], [2, [0, 5, 0]], [3, [0, 6, 2]], [4, 1, 7], [5], [6], [7], [9], [10], [8, 2, 0], [8, 0, 403], [8, 3, 1001],
 ]
 
 
@@ -534,8 +556,8 @@ def gen_script(rng, n):
 def gen_client(rng):
     ev = []
     for _ in range(rng.randint(0, 4)):
-        ev.append([rng.choice([0, 0, 1]), rng.randint(1, 99)])
-    ev.append(rng.choice([[2, 1000], [2, 1001], [2, 1006], [2, 4400], [2]]))
+        ev.append([rng.choice([0, 0, 1]), rng.randint(1, 99), rng.choice([0, 1])])
+    ev.append([2, rng.choice([[1000], [1001], [1006], [4400], []]), rng.choice([0, 0, 1])])
     return ev
 
 
@@ -571,7 +593,7 @@ def gen_case(rng):
 def wire_case(case):
     (ver, cap, err, hk, park), connect_ok, mw, route, client, fails = (cfg5(case[0]),) + tuple(case[1:])
     h, r = VERSIONS[ver]
-    return [1, MODEL_FIXED, [h, r, cap, err, hk], connect_ok, mw, route, client, fails]
+    return [1, MODEL_FIXED, [h, r, cap, err, hk], connect_ok, mw, route, norm_client(client), fails]
 
 
 EXC = {0: 'OperationNotAllowed', 1: 'WebSocketDisconnected', 2: 'PayloadTypeError', 3: 'ValueError',
@@ -609,9 +631,11 @@ def judge(ctx, model, cases, reals, tag):
             op = ops[j]
             mo.append([3, cfgw, pub, op, res])
             idx_m.append((i, j))
-            if op[0] in (5, 6, 7, 10) and res != [0, [4]] and (res[0] == 0 or (res[0] == 1 and res[1] == [2])):
+            # a receive that got past the state check and did not end in WebSocketDisconnected /
+            # cancellation consumed one client event: judge what it made of it
+            if op[0] in (5, 6, 7, 10) and res != [0, [4]] and (res[0] == 0 or (res[0] == 1 and res[1][0] in (2, 3, 4, 5, 6, 10))):
                 if k < len(client):
-                    po.append([4, 0 if op[0] == 10 else op[0] - 5, client[k], res])
+                    po.append([4, 0 if op[0] == 10 else op[0] - 5, norm_client(client)[k], res])
                     idx_p.append((i, j))
                 k += 1
     wo, idx_w = [], []
@@ -719,7 +743,7 @@ def small_cases(depth, full):
     """all responder scripts of <= depth operations over a small alphabet (every operation
     swallowed or not) x a few client scripts x every single send-failure point"""
     out = []
-    clients = [[[2, 1001]], [[0, 5], [2]], [[1, 6], [0, 7], [2, 1000]]]
+    clients = [[[2, [1001], 1]], [[0, 5, 1], [2, [], 0]], [[1, 6, 1], [0, 7, 0], [2, [1000], 0]]]
     fails_all = [[]] + [[[0]] * i + [k] for i in range(3) for k in ([1], [4], [2], [3])]
     cfgs = [('2.3', 1, 1011, 2, 1), ('2.0', 0, 999, 0, 0)] if not full else \
         [('2.3', 1, 1011, 2, 1), ('2.0', 0, 999, 0, 0), ('2.1', 2, 1011, 3, 0)]
